@@ -878,10 +878,33 @@ def c15(tier, seed):
     sh(["cargo", "build", "-q"], cwd=fe_dir, extra_env={"CARGO_TARGET_DIR": fe_target})
     res_path = os.path.join(out, "inproc.json")
     pr = sh([os.path.join(fe_target, "debug", "vfrontend"), os.path.join(out, "cases.json"), res_path], check=False)
-    if pr.returncode != 0:
-        sys.stderr.write(pr.stdout[-2000:])
-        raise Inconclusive("in-process front end run failed (%d): possible non-termination" % pr.returncode)
     cases = {c["id"]: c for c in json.load(open(os.path.join(out, "cases.json")))}
+    if pr.returncode != 0:
+        # the front end died (stack overflow of a non-terminating expansion: SIGSEGV / SIGABRT) or did not return within
+        # 60 s on one case (exit 3): the property demands a rejection instead
+        cur = None
+        try:
+            cur = open(res_path + ".current").read().strip()
+        except OSError:
+            pass
+        sys.stderr.write(pr.stdout[-1500:])
+        if cur in cases and (pr.returncode < 0 or pr.returncode in (3, 134, 139)):
+            c = cases[cur]
+            how = "did not return within 60 s" if pr.returncode == 3 else "crashed (exit %d: stack overflow / abort)" % pr.returncode
+            v = dict(property=prop, base=cur, signature="C15:inproc:%s:front end %s" % (c["operator"], "hang" if pr.returncode == 3 else "crash"),
+                     failures=[dict(kind="front_end_" + ("hang" if pr.returncode == 3 else "crash"), what="the macro front end %s on this program (%s at %s)" % (how, c["operator"], c["site"]),
+                                    output_tail=pr.stdout[-600:])],
+                     program_text="%s! {\n%s\n}" % (c["kind"], c["text"]), input_text="", seed=seed, tier=tier)
+            cov = dict(evaluations=1, distinct_nontrivial=0, rule="see a passing run", samples=[dict(operator=c["operator"], site=c["site"], macro=c["kind"], program=c["text"])],
+                       distribution={"front_end_died": 1})
+            write_evidence(prop, tier, seed, "exploration", cov, [], time.time() - t0, 1)
+            os.makedirs(REPLAYS, exist_ok=True)
+            name = "%s-seed%s-%s.json" % (prop, seed, hashlib.sha1(json.dumps(v, sort_keys=True, default=str).encode()).hexdigest()[:10])
+            with open(os.path.join(REPLAYS, name), "w") as f:
+                json.dump(v, f, indent=1, default=str)
+            print("VIOLATION property=%s replay=%s" % (prop, os.path.join(REPLAYS, name)))
+            return 1
+        raise Inconclusive("in-process front end run failed (%d)" % pr.returncode)
     results = json.load(open(res_path))
     violations = []
     dist = {}
@@ -1004,6 +1027,56 @@ def c15(tier, seed):
     return 0
 
 
+def c08_recursion(tier, seed):
+    """C08, last clause: a macro that refers to itself (directly, mutually, behind a base case in a disjunction) is
+    rejected instead of expanding forever. The ill-formed cases of the C15 generator with the recursive-macro operators
+    are run through the repository's front end compiled in-process; anything but a rejection is a violation."""
+    out = os.path.join(WORK, "C08-rec")
+    os.makedirs(out, exist_ok=True)
+    vgen = build_engine_bin("vgen")
+    render_engine()
+    sh([vgen, "--prop", "C15", "--tier", tier, "--seed", str(seed), "--out", out, "--engine", ENGINE])
+    cases = [c for c in json.load(open(os.path.join(out, "cases.json"))) if c["operator"].startswith("recursive_macro")]
+    json.dump(cases, open(os.path.join(out, "rec_cases.json"), "w"))
+    fe_dir = os.path.join(ENGINE, "frontend")
+    if not os.path.exists(os.path.join(fe_dir, "Cargo.lock")):
+        shutil.copy(os.path.join(ENGINE, "Cargo.lock"), os.path.join(fe_dir, "Cargo.lock"))
+    fe_target = os.path.join(WORK, "target-fe")
+    sh(["cargo", "build", "-q"], cwd=fe_dir, extra_env={"CARGO_TARGET_DIR": fe_target})
+    res_path = os.path.join(out, "inproc.json")
+    pr = sh([os.path.join(fe_target, "debug", "vfrontend"), os.path.join(out, "rec_cases.json"), res_path], check=False)
+    by_id = {c["id"]: c for c in cases}
+    viol = []
+    dist = {"recursive_macro_cases": len(cases)}
+    if pr.returncode != 0:
+        cur = None
+        try:
+            cur = open(res_path + ".current").read().strip()
+        except OSError:
+            pass
+        if cur in by_id and (pr.returncode < 0 or pr.returncode in (3, 134, 139)):
+            c = by_id[cur]
+            how = "did not return within 60 s" if pr.returncode == 3 else "crashed (exit %d: stack overflow / abort)" % pr.returncode
+            viol.append(dict(property="C08", base=cur, signature="C08:recursive macro:front end %s" % ("hang" if pr.returncode == 3 else "crash"),
+                             failures=[dict(kind="front_end_died", what="the macro front end %s instead of rejecting a self-referential macro (%s at %s)" % (how, c["operator"], c["site"]))],
+                             program_text="%s! {\n%s\n}" % (c["kind"], c["text"]), input_text="", seed=seed, tier=tier, rerun=True))
+            return dist, viol
+        sys.stderr.write(pr.stdout[-1500:])
+        raise Inconclusive("in-process front end run failed (%d)" % pr.returncode)
+    for r in json.load(open(res_path)):
+        c = by_id[r["id"]]
+        o = r["outcome"]
+        kind = o if isinstance(o, str) else list(o.keys())[0]
+        detail = "" if isinstance(o, str) else list(o.values())[0]
+        site_class = c["site"].split(":")[-1]
+        dist["recursive_macro:%s:%s" % (site_class, kind)] = dist.get("recursive_macro:%s:%s" % (site_class, kind), 0) + 1
+        if kind != "Rejected":
+            viol.append(dict(property="C08", base=r["id"], signature="C08:recursive macro:%s" % kind,
+                             failures=[dict(kind=kind, detail=detail, what="a self-referential macro (%s at %s) was not rejected" % (c["operator"], c["site"]))],
+                             program_text="%s! {\n%s\n}" % (c["kind"], c["text"]), input_text="", seed=seed, tier=tier, rerun=True))
+    return dist, viol
+
+
 def main(argv):
     if not argv:
         print(__doc__)
@@ -1040,6 +1113,11 @@ def main(argv):
                 return 0
             cov, violations, infra = merge_progfuzz(prop, tier, seed, run)
             cfg = run["cfg"]
+            if prop == "C08" and not violations:
+                rdist, rviol = c08_recursion(tier, seed)
+                cov["distribution"].update(rdist)
+                cov["evaluations"] += rdist.get("recursive_macro_cases", 0)
+                violations.extend(rviol)
             return finish(prop, tier, seed, cfg["level"], cov, cfg["assumptions"], time.time() - t0, violations, infra)
         if replay and (os.path.basename(replay).startswith("fuzz-") or (replay.endswith(".json") and "fuzz_artifact" in open(replay, errors="replace").read(200000))):
             # a saved fuzz input (or the JSON record pointing at one): replayed through the plain binary, no fuzzer needed
